@@ -36,7 +36,7 @@ func init() {
 			"pairs differing in exactly one canonical limb and pairs differing in exactly one stored limb (each limb, both directions), s=t (same and distinct objects), s=t±1, (0,n-1), values whose stored form is adjacent to One() or to zero, PRNG pairs; " +
 			"CSelect with condition words 0,1,2,every 2^k,2^64-1,alternating patterns, random, receiver fresh or aliased with either operand, nil operands. " +
 			"Oracle: integer comparison of the canonical values in math/big; CSelect must yield the first operand for 0 and the second for every non-zero word, and on a nil operand return an error with the receiver bit-identical. " +
-			"non-trivial = s != t or a cselect case; History cases: operand s is an object that held another value, was compared and serialised, and reached its value through each mutator of the API. distinct by the whole case. Plus concurrent batches: 8 goroutines run the operations simultaneously on objects they own, each result judged against the oracle.",
+			"non-trivial = s != t or a cselect case; History cases (mon/move.go): operand s is an object built through SetUInt64 / Decode / an addition / scripted Random, compared and serialised, then driven through one of 40 mutators incl. itself as argument (Add, Subtract, Multiply, Pow, Set, CSelect), sums landing exactly on 0 and 1, recovered misuse (LessOrEqual(nil), a failing entropy source) and range-rejected decodes (value taken from Encode afterwards, every comparison must agree with it). In short: operand s is an object that held another value, was compared and serialised, and reached its value through each mutator of the API. distinct by the whole case. Plus concurrent batches: 8 goroutines run the operations simultaneously on objects they own, each result judged against the oracle.",
 		NewCase:  func() any { return &c13Case{} },
 		Generate: c13Generate,
 		Run:      c13Run,
